@@ -278,14 +278,49 @@ def state_obligations(mods):
                 if d:
                     called.add(d.split(".")[-1])
     written_globals = {}     # rel -> {global names written inside functions}
+    mnames_by_rel = {}
     sites = []
     for rel, m in mods.items():
         mnames = _module_level_names(m)
+        mnames_by_rel[rel] = mnames
+        # class-level mutable containers are shared by all instances (process-persistent) unless rebound per instance
+        class_state = set()
+        for cq, cnode in m.classes.items():
+            for st_ in cnode.body:
+                t_, v_ = None, None
+                if isinstance(st_, ast.Assign) and len(st_.targets) == 1 and isinstance(st_.targets[0], ast.Name):
+                    t_, v_ = st_.targets[0].id, st_.value
+                elif isinstance(st_, ast.AnnAssign) and isinstance(st_.target, ast.Name) and st_.value is not None:
+                    t_, v_ = st_.target.id, st_.value
+                if t_ and (isinstance(v_, (ast.Dict, ast.List, ast.Set, ast.ListComp, ast.DictComp, ast.SetComp)) or
+                           (isinstance(v_, ast.Call) and dotted(v_.func).split(".")[-1] in ("dict", "list", "set", "OrderedDict", "defaultdict", "deque", "Counter"))):
+                    class_state.add(t_)
+        for n in ast.walk(m.tree):      # `self.NAME = ...` makes NAME an instance attribute
+            if isinstance(n, (ast.Assign, ast.AnnAssign)):
+                for t_ in (n.targets if isinstance(n, ast.Assign) else [n.target]):
+                    if isinstance(t_, ast.Attribute) and isinstance(t_.value, ast.Name) and t_.value.id == "self":
+                        class_state.discard(t_.attr)
+
+        def shared_attr(e, _cs=class_state, _m=m):
+            """`self.NAME` / `cls.NAME` / `Class.NAME` where NAME is a class-level mutable container."""
+            while isinstance(e, ast.Subscript):
+                e = e.value
+            if isinstance(e, ast.Attribute) and e.attr in _cs and isinstance(e.value, ast.Name) and \
+                    (e.value.id in ("self", "cls") or e.value.id in _m.classes):
+                return e.attr
+            return None
         for q, fnode in m.functions.items():
             locs, declared_global = local_names(fnode)
             def is_global(name):
                 return name is not None and (name in declared_global or (name not in locs and name in mnames))
             for n in own_nodes(fnode):
+                # writes to class-level shared containers
+                if isinstance(n, (ast.Assign, ast.AugAssign)):
+                    for t_ in (n.targets if isinstance(n, ast.Assign) else [n.target]):
+                        if isinstance(t_, ast.Subscript) and shared_attr(t_.value):
+                            sites.append((rel, q, fnode, n, shared_attr(t_.value), "store", t_.slice, n.value))
+                if isinstance(n, ast.Call) and isinstance(n.func, ast.Attribute) and n.func.attr in STATE_MUTATORS and shared_attr(n.func.value):
+                    sites.append((rel, q, fnode, n, shared_attr(n.func.value), "evict" if n.func.attr in EVICTIONS else "mutate", None, None))
                 if isinstance(n, ast.Name) and isinstance(n.ctx, ast.Store) and n.id in declared_global:
                     sites.append((rel, q, fnode, n, n.id, "rebind", None, None))
                 tgts = []
@@ -338,7 +373,22 @@ def state_obligations(mods):
             var_leaves = {x for x in leaves if x in params}
             other_state = {x for x in leaves if x in written_globals.get(rel, ()) and x not in params and x not in assigns}
             missing = sorted(var_leaves - det)
-            ok = not missing and not other_state
+            key_leaves = {x for x in _leaves(key, assigns, params) if x in params}
+            ksrc = ast.unparse(key)
+            def same_key(e):
+                return e is not None and ast.unparse(e) == ksrc
+            def on_g(e, _g=g):
+                return (isinstance(e, ast.Name) and e.id == _g) or (isinstance(e, ast.Attribute) and e.attr == _g)
+            has_lookup = any(
+                (isinstance(x, ast.Call) and isinstance(x.func, ast.Attribute) and x.func.attr == "get" and on_g(x.func.value) and x.args and same_key(x.args[0])) or
+                (isinstance(x, ast.Compare) and len(x.ops) == 1 and isinstance(x.ops[0], (ast.In, ast.NotIn)) and on_g(x.comparators[0]) and same_key(x.left)) or
+                (isinstance(x, ast.Subscript) and isinstance(x.ctx, ast.Load) and on_g(x.value) and same_key(x.slice))
+                for x in own_nodes(fnode))
+            writers = {(r2, q2) for (r2, q2, _f, _n, g2, k2, _k, _v) in sites if g2 == g and r2 == rel and k2 != "evict"}
+            outside = sorted({q2 for q2, f2 in mods[rel].functions.items() if (rel, q2) not in writers and not isinstance(f2, ast.Lambda) and
+                              g not in local_names(f2)[0] and any(isinstance(x, ast.Name) and x.id == g and isinstance(x.ctx, ast.Load) for x in own_nodes(f2))}) \
+                if mnames_by_rel[rel].get(g) else []
+            ok = not missing and not other_state and (has_lookup or not key_leaves) and not outside
             why = (f"{loc} {g}[{ast.unparse(key)}] = {ast.unparse(val)[:60]}: the stored value depends on {sorted(var_leaves)}; "
                    f"the key determines {sorted(d for d in det if d in params)}")
             if missing:
@@ -346,6 +396,11 @@ def state_obligations(mods):
                         "what this process extracted earlier")
             if other_state:
                 why += f" -- value reads other process-persistent state {sorted(other_state)}"
+            if not missing and not (has_lookup or not key_leaves):
+                why += (f" -- entries are added under an input-dependent key ({sorted(key_leaves)}) without a lookup of the same key in this function: "
+                        "which entries exist depends on what the process extracted earlier")
+            if outside:
+                why += f" -- {g} is also read outside its memo function(s): {outside}"
             o = ground_obligation(f"C06/{short}::{q}/state#{g}-stored-value-determined-by-key-{idx}", ok, why, rel, definite=False)
         elif kind == "rebind":
             pub = not fnode.name.startswith("_") and "<locals>" not in q
